@@ -185,7 +185,7 @@ func blockPrepare(k *kvs, derive bool) func() string {
 // beacon_attestation_{subnet}
 //
 // desc:   cfg fork slot idx tepoch bitlen bits subnet broot troot sigk signer
-// script: min max bad bknown bslot tsub tckpt froot fsub fepoch tow epc seen dom
+// script: min max bad bknown bslot anc denebepoch tsub froot fsub fepoch tow epc seen dom
 // facts:  spe bisfin cps comm sig
 
 type attParts struct {
@@ -249,21 +249,38 @@ func scriptAttChain(k *kvs, be *backend, p *attParts, withByBlock bool, stateOk 
 	}
 	be.minSlot, be.maxSlot = common.Slot(k.u("min")), common.Slot(k.u("max"))
 	be.bad = k.b("bad")
-	if withByBlock {
-		if k.u("bslot") >= 1<<63 {
-			panic(badOp("bslot not representable as a chain Step"))
+	_ = withByBlock
+	if k.u("bslot") >= 1<<63 {
+		panic(badOp("bslot not representable as a chain Step"))
+	}
+	// the voted block and the parents the chain view resolves: block -> anc[0] -> anc[1] -> … -> (unknown root)
+	anc := k.pairs("anc")
+	unknown := symRoot(999)
+	be.byBlock[unknown] = nil
+	parentOf := func(i int) *common.Root { // parent root of chain element i (0 = the voted block)
+		if i < len(anc) {
+			r := symRoot(anc[i][0])
+			return &r
 		}
-		if k.b("bknown") {
-			be.byBlock[broot] = &entryScript{slot: common.Slot(k.u("bslot")), epcOk: false}
-		} else {
-			_ = k.u("bslot")
-			be.byBlock[broot] = nil
+		return &unknown
+	}
+	seenRoot := map[uint64]bool{k.u("broot"): true, 999: true}
+	for i := range anc {
+		// roots name blocks: each occurs once in a chain
+		if anc[i][1] >= 1<<63 || seenRoot[anc[i][0]] {
+			panic(badOp("bad ancestor"))
 		}
+		seenRoot[anc[i][0]] = true
+	}
+	for i := len(anc) - 1; i >= 0; i-- {
+		be.byBlock[symRoot(anc[i][0])] = &entryScript{slot: common.Slot(anc[i][1]), parent: parentOf(i + 1)}
+	}
+	if k.b("bknown") {
+		be.byBlock[broot] = &entryScript{slot: common.Slot(k.u("bslot")), parent: parentOf(0)}
 	} else {
-		_ = k.b("bknown")
+		be.byBlock[broot] = nil
 	}
 	be.inSubtree[[2]common.Root{troot, broot}] = k.tri("tsub")
-	_ = k.b("tckpt")
 	be.inSubtree[[2]common.Root{froot, broot}] = k.tri("fsub")
 	be.finalized = common.Checkpoint{Epoch: common.Epoch(k.u("fepoch")), Root: froot}
 	tepoch := k.u("tepoch")
@@ -283,7 +300,10 @@ func scriptAttChain(k *kvs, be *backend, p *attParts, withByBlock bool, stateOk 
 		be.towards[bsKey(troot, common.Slot(tepoch*p.spe))] = nil
 	}
 	be.domEpoch = stateEpochCap(tepoch)
-	_ = c
+	// the node's spec: DENEB_FORK_EPOCH as scripted (everything else as in the network's configuration)
+	sp := *c.spec
+	sp.DENEB_FORK_EPOCH = common.Epoch(k.u("denebepoch"))
+	be.spec = &sp
 }
 
 func attPrepare(k *kvs, derive bool) func() string {
@@ -333,7 +353,7 @@ func attPrepare(k *kvs, derive bool) func() string {
 // beacon_aggregate_and_proof
 //
 // desc:   cfg fork slot idx tepoch aggregator bitlen bits broot troot selk osigk asigk
-// script: min max seenaggr seenagg bad bknown tsub tckpt froot fsub fepoch tow epc state
+// script: min max seenaggr seenagg bad bknown bslot anc denebepoch tsub froot fsub fepoch tow epc state
 // facts:  spe bisfin aggroot nvals commok comm selproof seldec selsig osig osigtrunc maxpc aggsig
 
 func aggPrepare(k *kvs, derive bool) func() string {
